@@ -21,6 +21,7 @@ import MsVerif.Lemmas.TapTreeCombine
 import MsVerif.Lemmas.TapTreeDisplay
 import MsVerif.Lemmas.TapTreeBip341
 import MsVerif.Lemmas.TapTreeTranslate
+import MsVerif.Lemmas.TapTreeDecode
 
 namespace MsVerif.C15
 open MsVerif MsVerif.Spec MsVerif.Spec.Tree MsVerif.Tap
@@ -196,6 +197,15 @@ example : trTranslate (fun (i : Nat) => if i = 1 then .error .outer else .ok (i 
 example : trTranslate (fun (i : Nat) => (.ok (i + 10) : Except TrErr Nat))
     (fun (k : Nat) => (.ok k : Except TrErr Nat)) 7 (some [(1, 0), (1, 1)])
     = .ok (7, some [(1, 10), (1, 11)]) := by rfl
+
+/-- the decoder the PSBT judge uses (`Tree.ofDepths`, a recursive-descent reading of a BIP 371
+depth list) inverts `depths`: a depth list that comes from a tree decodes to exactly that tree -/
+theorem ofDepths_inverts_depths (t : Tree α) : Tree.ofDepths (depths t) = some t :=
+  Tree.ofDepths_depths t
+
+example : Tree.ofDepths [(1, 7), (2, 8), (2, 9)] = some (.node (.leaf 7) (.node (.leaf 8) (.leaf 9))) := by
+  decide
+example : Tree.ofDepths [(1, 7), (2, 8)] = none := by decide
 
 /-! ## Real hashes: the byte-level BIP341 instance (Spec/Bip341.lean)
 
